@@ -818,3 +818,19 @@ package raft
 //@ trusted steps the raft core with a LocalTick message
 //@ func (p *Peer) QuiescedTick [C12]
 //@ trusted advances the raft core's quiesced tick
+
+// ---------------------------------------------------------------- handler table (C18-R3)
+// non-voting members and witnesses get no handler for Election, TimeoutNow or vote responses:
+// initializeHandlerMap leaves those slots as they were (nil in a freshly allocated raft struct),
+// so such messages are dropped for these roles and they can never campaign or count votes
+//@ func (r *raft) initializeHandlerMap [C18]
+//@ noframe
+//@ nobounds
+//@ ensures r.handlers[nonVoting][pb.Election] == old(r.handlers[nonVoting][pb.Election]) && r.handlers[witness][pb.Election] == old(r.handlers[witness][pb.Election])
+//@ ensures r.handlers[nonVoting][pb.TimeoutNow] == old(r.handlers[nonVoting][pb.TimeoutNow]) && r.handlers[witness][pb.TimeoutNow] == old(r.handlers[witness][pb.TimeoutNow])
+//@ ensures r.handlers[nonVoting][pb.RequestVoteResp] == old(r.handlers[nonVoting][pb.RequestVoteResp]) && r.handlers[witness][pb.RequestVoteResp] == old(r.handlers[witness][pb.RequestVoteResp])
+//@ ensures r.handlers[nonVoting][pb.RequestPreVoteResp] == old(r.handlers[nonVoting][pb.RequestPreVoteResp]) && r.handlers[witness][pb.RequestPreVoteResp] == old(r.handlers[witness][pb.RequestPreVoteResp])
+// witnesses never serve proposals or reads
+//@ ensures r.handlers[witness][pb.Propose] == old(r.handlers[witness][pb.Propose]) && r.handlers[witness][pb.ReadIndex] == old(r.handlers[witness][pb.ReadIndex])
+//@ func lw [C18]
+//@ trusted wraps a leader handler (returns a closure)
